@@ -264,6 +264,14 @@ func (i *Install) RunWithContext(ctx context.Context, chrt *chart.Chart, vals ma
 		interactWithRemote = true
 	}
 
+	// Values that violate a schema must be rejected before anything is sent to
+	// the cluster; the CRDs below are sent before the render values are built.
+	if !i.SkipSchemaValidation {
+		if _, err := chartutil.ToRenderValuesWithSchemaValidation(chrt, vals, chartutil.ReleaseOptions{}, nil, false); err != nil {
+			return nil, err
+		}
+	}
+
 	// Pre-install anything in the crd/ directory. We do this before Helm
 	// contacts the upstream server and builds the capabilities object.
 	if crds := chrt.CRDObjects(); !i.ClientOnly && !i.SkipCRDs && len(crds) > 0 {
